@@ -31,10 +31,10 @@ def etrace_json(sc, obs):
     for st, o in zip(sc["steps"], obs):
         if st[0] == "assign":
             _, pool, cpu, ram, prio, refs = st
-            a = {"pool": pool, "cpu": cpu, "ram": to_q(ram, q), "prio": prio, "ops": [first[p] + k for p, k in refs]}
+            a = {"pool": layer_e.mpool(pool), "cpu": cpu, "ram": to_q(ram, q), "prio": prio, "ops": [first[p] + k for p, k in refs]}
             steps.append(["assign", a, o.get("err"), o["st"], o["cnt"]])
         elif st[0] == "suspend":
-            steps.append(["suspend", st[1], st[2]])
+            steps.append(["suspend", layer_e.mpool(st[1]), st[2]])
         else:
             steps.append(["tick", o.get("err"), o.get("state"), o.get("res", [])])
     return {"cfg": {"tps": c["tps"], "q": q, "g": g, "multi": c["multi"], "over": c["over"]},
